@@ -41,6 +41,10 @@ func main() {
 		if b%4 == 1 {
 			sqnNet = []byte{0, 0, 0, 0, 0, 1}
 		}
+		if b == 2 { // corner values: all-ones network SQN, AMF field all zero, all-zero key material
+			sqnNet, amf = []byte{255, 255, 255, 255, 255, 255}, []byte{0, 0}
+			k, op = make([]byte, 16), make([]byte, 16)
+		}
 
 		// f-functions
 		var opc []byte
@@ -145,6 +149,21 @@ func main() {
 			}
 		}
 		ues = append(ues, ev.Bytes(r, 6), make([]byte, 6))
+		// the order is that of 48-bit numbers, most significant octet first: one UE SQN higher in octet 0 and lower in octet 5, one the
+		// other way round; and octets on either side of 0x80 (a comparison of signed octets gets these wrong)
+		for _, pr := range [][2]int{{0, 5}, {5, 0}} {
+			x := cp(sqnNet)
+			if x[pr[0]] < 255 && x[pr[1]] > 0 {
+				x[pr[0]]++
+				x[pr[1]]--
+				ues = append(ues, x)
+			}
+		}
+		for _, i := range []int{0, 5} {
+			x := cp(sqnNet)
+			x[i] ^= 0x80
+			ues = append(ues, x)
+		}
 		var staleAuts []byte
 		var freshMs, staleMs []byte
 		for _, ms := range ues {
